@@ -9,7 +9,16 @@ _FALSE = object()
 
 
 def replace_bool(value: Any) -> Any:
-    return _TRUE if value is True else _FALSE if value is False else value
+    """Alias booleans, at any depth, so they never compare equal to 0/1."""
+    if value is True:
+        return _TRUE
+    if value is False:
+        return _FALSE
+    if isinstance(value, list):
+        return [replace_bool(sub_value) for sub_value in value]
+    if isinstance(value, dict):
+        return {key: replace_bool(val) for key, val in value.items()}
+    return value
 
 
 def _is_instance(value, type_args):
